@@ -51,18 +51,24 @@ def gen(seed: int, tier: str, idx=None):
         rcls = BAD_CLASSES[ra] if ra < len(BAD_CLASSES) else {"rel": "in", "k": rng0.randrange(50)}
         ccls = {"rel": "in", "k": rng0.randrange(50)} if (ca == 0 and ra < len(BAD_CLASSES)) else BAD_CLASSES[rng0.randrange(len(BAD_CLASSES))]
         g.emit({"op": "bad_pos", "d": 0, "s": 0, "t": rng0.randrange(2), "method": m, "r": rcls, "c": ccls, "nota": nota})
+    used = []  # (row, col, notation) of earlier twin calls: the very same reference is revisited later, e.g. after the table shrank
     for _ in range(steps):
         kind = rng.choices(names, wts)[0]
         tm = g.ms.docs[0].model.sheets[0].tables[0]
         if kind == "twin_write":
             r = rng.random()
-            if r < 0.7:
+            nota = rng.choice(["a1", "a1", "abs"])
+            if used and r < 0.3:
+                row, col, nota = rng.choice(used)
+            elif r < 0.75:
                 row, col = g.index(tm.nrows), g.index(tm.ncols)
             else:
                 row, col = tm.nrows - 1 + rng.randint(0, 3), min(999, tm.ncols - 1 + rng.choice([0, 0, 1, 2, 26, 27]))
             if max(row + 1, tm.nrows) * max(col + 1, tm.ncols) > 3000:
                 row, col = g.index(tm.nrows), g.index(tm.ncols)
-            g.emit({"op": "twin", "d": 0, "s": 0, "method": "write", "r": row, "c": col, "v": V.enc(g.value()), "nota": rng.choice(["a1", "a1", "abs"])})
+            used.append((row, col, nota))
+            g.emit({"op": "twin", "d": 0, "s": 0, "method": rng.choice(["write", "write", "write", "set_cell_style", "set_cell_border"]) if (row, col, nota) in used[:-1] else "write",
+                    "r": row, "c": col, "v": V.enc(g.value()), "nota": nota})
         elif kind == "twin_other":
             method = rng.choice(["set_cell_style", "set_cell_border", "set_cell_formatting"])
             if method == "set_cell_formatting":
@@ -95,8 +101,8 @@ def gen(seed: int, tier: str, idx=None):
                     o[k] = b
             g.emit(o)
         elif kind == "struct":
-            opn = rng.choice(["add_row", "add_col", "del_row", "del_col"])
-            o = {"op": opn, "d": 0, "s": 0, "n": rng.choice([1, 1, 2])}
+            opn = rng.choice(["add_row", "add_col", "del_row", "del_col", "del_row", "del_col"])
+            o = {"op": opn, "d": 0, "s": 0, "n": rng.choice([1, 1, 2, 3])}
             size = tm.nrows if "row" in opn else tm.ncols
             if rng.random() < 0.5:
                 o["at"] = g.index(size)
